@@ -68,7 +68,7 @@ def run(ctx):
     correspondence(ctx, ctx.seed, ctx.tier)
     ctx.trusted += [
         "hand model (Model/TestRunner.lean): meanings of rsplit_once/map_or/starts_with/replace/strip_prefix/sort and of the iterator "
-        "adapters; Module::get_function as key lookup + signature equality; declaration name spaces; pipeline stages as World operations "
+        "adapters; Module::get_function after its (generated) key computation as one table look-up + signature equality; declaration name spaces; pipeline stages as World operations "
         "— tied by the correspondence run only",
         "unicode-ident: '#' and '.' are not XID_Continue, XID_Start is a subset of XID_Continue (hypothesis XIDFacts of discovery_exact / no_shadow_*)",
         "counters of run_tests are i32 (Rust integer fallback; an explicitly typed counter is refused by the translator): aggregate_* assume fewer than 2^31 tests",
